@@ -7,6 +7,8 @@ Readers under test (all on files / text written by the library itself):
   json      parse_table(json_text, ids=, axis=)                          drops emptied other-axis vectors
   cmd_json  _subset_table(None, text, axis, ids) on four serialisations of the same document
   h5all     Table.from_hdf5(h)  (ties the model's reading of the stored arrays to the library)
+  cli_h5    the real command: biom.cli.cli.main(['subset-table', '-i', file, '-a', axis, '-s', ids_file, '-o', out])
+  cli_json  the same with '-j' on each serialisation; the ids file is written in three styles
 """
 import atexit
 import datetime
@@ -33,6 +35,9 @@ RULE = ('tables from tables.rand_spec (1..5 x 1..5, layout recipes, all id alpha
         'JSON text as written, json.dumps default, indent=2 and separators=(",",":"); plus requests naming an unknown id '
         '(an unrelated string, a stored id of maximal length with extra characters appended, a proper prefix, another case, an id of the other axis), one '
         'whole read per file, and a stream of tables with 9..12 ids on one axis (kept indices >= 8, two-digit indices) with small subsets; '
+        'the REAL COMMAND (biom.cli.cli.main(["subset-table", ...]) in process, ids read from a file written as plain lines / with '
+        'extra tab-separated columns / with # comment lines) on 3-5 requests per axis and file, HDF5 and JSON input, plus a stream of '
+        'tables whose ids contain blanks ("gut 2" next to "gut") with every subset through the command; '
         'JSON documents in which only some ids carry metadata (json readers only: the HDF5 writer refuses them); '
         '3 in 10 tables get ] [ } { quotes, backslashes and separators spliced into ids and metadata strings; '
         'a metadata key named "columns" (known finding F35) reaches the JSON slicer only in tagged witness cases; '
@@ -51,8 +56,10 @@ OTHER = {'observation': 'sample', 'sample': 'observation'}
 SERS = ['lib', 'dumps', 'indent', 'compact']
 GENS = ['g', 'a, b', 'say "hi", ok', 'x]y[z', '{k}: v', 'back\\slash', 'tab\there']
 HEADER_KEYS = ['id', 'format', 'format_url', 'type', 'generated_by', 'date', 'matrix_type', 'matrix_element_type']
-DROPS = ('h5', 'cmd_h5', 'json')          # variants that drop other-axis vectors emptied by the subset
-REFUSES = ('h5', 'h5nomd', 'cmd_h5', 'cmd_json')
+DROPS = ('h5', 'cmd_h5', 'cli_h5', 'json')          # variants that drop other-axis vectors emptied by the subset
+REFUSES = ('h5', 'h5nomd', 'cmd_h5', 'cmd_json', 'cli_h5', 'cli_json')
+SLICER = ('cmd_json', 'cli_json')        # observable = the text written
+IDS_STYLES = ['plain', 'cols', 'comments']
 UNKNOWN = 'no-such-id'
 
 _TMP = tempfile.mkdtemp(prefix='biomv-c14-')
@@ -117,6 +124,74 @@ def art(c):
     return a
 
 
+# ---------------------------------------------------------------- the real command
+def addressable(i):
+    """ids the ids file of subset-table can carry (one id per line, first tab-separated column, '#' = comment)"""
+    return bool(i) and i == i.strip() and not any(ch in i for ch in '\t\n\r') and not i.startswith('#')
+
+
+def ids_file_text(c):
+    """the text of the -s file for a case, in the style the case names"""
+    style, ids = c.get('idsfile', 'plain'), c['ids']
+    if style == 'plain':
+        return ''.join(i + '\n' for i in ids)
+    if style == 'cols':
+        return ''.join('%s\tcolumn %d\tx\n' % (i, k) for k, i in enumerate(ids))
+    out = ['#SampleID\tDescription\n']
+    for k, i in enumerate(ids):
+        out.append(i + ('\tsome text # not a comment\n' if k % 2 else '\n'))
+        if k == 0:
+            out.append('# a comment between two ids\n')
+    return ''.join(out)
+
+
+_SEQ = [0]
+
+
+def run_cli(c, a):
+    """`biom subset-table` in process, as the console script runs it.  The click group closes fd 1 on exit, so
+    fds 0-2 are saved and restored around the call (same device as harness/c13.py)."""
+    from biom.cli import cli
+    _SEQ[0] += 1
+    stem = os.path.join(_TMP, 'cli%d' % _SEQ[0])
+    idsf, out = stem + '.ids.txt', stem + '.out.biom'
+    with open(idsf, 'w', encoding='utf-8', newline='') as f:
+        f.write(ids_file_text(c))
+    if c['kind'] == 'cli_h5':
+        args = ['subset-table', '-i', a['path']]
+    else:
+        inp = stem + '.in.json'
+        with open(inp, 'w', encoding='utf-8', newline='') as f:
+            f.write(a['text'][c['ser']])
+        args = ['subset-table', '-j', inp]
+    args += ['-a', c['axis'], '-s', idsf, '-o', out]
+    saved = [os.dup(k) for k in (0, 1, 2)]
+    err = None
+    try:
+        try:
+            cli.main(args=args, standalone_mode=False)
+        except BaseException as e:          # click may raise SystemExit / Abort
+            err = e
+    finally:
+        for k, fd in enumerate(saved):
+            os.dup2(fd, k)
+            os.close(fd)
+    try:
+        if err is not None:
+            return ['err', T.err_code(err)]
+        if c['kind'] == 'cli_h5':
+            with h5py.File(out, 'r') as f:
+                return ['ok', T.norm_snap(T.snapshot(Table.from_hdf5(f)))]
+        with open(out, encoding='utf-8', newline='') as f:
+            return ['text', f.read()]
+    finally:
+        for fn in (idsf, out, stem + '.in.json'):
+            try:
+                os.remove(fn)
+            except OSError:
+                pass
+
+
 # ---------------------------------------------------------------- implementation
 def run_impl(c):
     try:
@@ -143,6 +218,8 @@ def run_impl(c):
         if k == 'cmd_json':
             pieces, fmt = _subset_table(None, a['text'][c['ser']], axis, ids)
             return ['text', '\n'.join(pieces)]
+        if k in ('cli_h5', 'cli_json'):
+            return run_cli(c, a)
     except Exception as e:
         return ['err', T.err_code(e)]
     raise ValueError(k)
@@ -180,6 +257,12 @@ def encode(c):
         return [2, _file_tree(cd, a), AX[c['axis']], ids]
     if k == 'json':
         return [3, cd.table(a['json_all']), AX[c['axis']], ids]
+    if k == 'cli_h5':
+        known = c['spec']['oids'] if c['axis'] == 'observation' else c['spec']['sids']
+        return [5, _file_tree(cd, a), AX[c['axis']], [ord(ch) for ch in ids_file_text(c)],
+                [[[ord(ch) for ch in i], cd.id(i)] for i in known]]
+    if k == 'cli_json':
+        return [6, [ord(ch) for ch in a['text'][c['ser']]], AX[c['axis']], [ord(ch) for ch in ids_file_text(c)]]
     return [4, [ord(ch) for ch in a['text'][c['ser']]], AX[c['axis']], [[ord(ch) for ch in i] for i in c['ids']]]
 
 
@@ -192,7 +275,7 @@ def decode(tree, c):
         return ['ok', T.norm_snap(cd.untable(tree))]
     if tree[0] == -1:
         return ['err', tree[1]]
-    if k == 'cmd_json':
+    if k in SLICER:
         return ['text', ''.join(chr(x) for x in tree[1])]
     return ['ok', T.norm_snap(cd.untable(tree[1]))]
 
@@ -221,7 +304,7 @@ def reference(c):
     """load everything with the library, Table.filter to the requested ids, then what the variant documents"""
     a = art(c)
     k, axis = c['kind'], c['axis']
-    if k in ('json', 'cmd_json'):
+    if k in ('json',) + SLICER:
         full = parse_table(a['text']['lib'])
     else:
         with h5py.File(a['path'], 'r') as f:
@@ -259,7 +342,8 @@ def oracle(c, obs):
                          # (the model is still compared with the code on it)
     ref, have = reference(c)
     unknown = [i for i in c['ids'] if i not in have]
-    what = '%s axis=%s ids=%s%s' % (k, c['axis'], c['ids'], ' ser=' + c['ser'] if k == 'cmd_json' else '')
+    what = '%s axis=%s ids=%s%s%s' % (k, c['axis'], c['ids'], ' ser=' + c['ser'] if k in SLICER else '',
+                                     ' ids-file=' + c.get('idsfile', 'plain') if k.startswith('cli_') else '')
     if unknown and k in REFUSES:
         if obs[0] != 'err':
             return ['C14 refusal: %s names unknown id(s) %s but was not refused' % (what, unknown)]
@@ -267,7 +351,7 @@ def oracle(c, obs):
     if obs[0] == 'err':
         return ['C14 subset != read-all-then-filter: %s raised (error code %s) where filtering the whole table succeeds'
                 % (what, obs[1])]
-    if k == 'cmd_json':
+    if k in SLICER:
         a = art(c)
         try:
             got = T.norm_snap(T.snapshot(parse_table(obs[1])))
@@ -372,6 +456,56 @@ def cases_for(rng, spec, gen_by, tier, readers=None):
             for k in ('h5', 'h5nomd'):
                 if k in readers:
                     yield dict(base, kind=k, axis=axis, ids=[oth[0]])
+        # the real command (`biom subset-table`, ids read from a file) on a share of the requests
+        for c in cli_requests(rng, base, axis, ids, 'cmd_h5' in readers, slicer):
+            yield c
+
+
+def cli_requests(rng, base, axis, ids, h5, js, every=False):
+    good = [i for i in ids if addressable(i)]
+    if not good:
+        return
+    if every and len(good) <= 4:
+        reqs = [list(x) for r in range(1, len(good) + 1) for x in itertools.combinations(good, r)]
+    else:
+        reqs = [[good[0]], list(good)]
+        if len(good) > 2:
+            reqs.append(rng.sample(good, rng.randint(2, len(good) - 1)))
+    for r in reqs:
+        rng.shuffle(r)
+    reqs.append(good[:rng.randint(0, len(good))] + [UNKNOWN])
+    reqs.append([good[-1] + ' x'])                       # a known id followed by a blank and more: unknown
+    for j, req in enumerate(reqs):
+        style = IDS_STYLES[(j + len(ids)) % 3]
+        if h5:
+            yield dict(base, kind='cli_h5', axis=axis, ids=list(req), idsfile=style)
+        if js:
+            yield dict(base, kind='cli_json', axis=axis, ids=list(req), idsfile=style, ser=SERS[(j + len(ids)) % 4])
+
+
+BLANK_IDS = ['gut', 'gut 2', 'gut 2 b', 'skin 1', 'a  b', 'x y z', 'gut\u00a02', 'tongue', '2', 'gut 2 #c', "o'ral 1"]
+
+
+def blank_id_cases(rng, tier):
+    """ids containing blanks, some of whose first blank-separated token is an id as well ('gut 2' / 'gut'):
+    every subset through the real command (both inputs, three ids-file styles) and through the direct readers"""
+    for i in range(5 if tier == 'quick' else 50):
+        spec = T.rand_spec(rng, max_r=4, max_c=4, alphabet='short', density=rng.choice([0.6, 1.0]))
+        pool = list(BLANK_IDS)
+        rng.shuffle(pool)
+        spec['oids'] = pool[:len(spec['oids'])]
+        rng.shuffle(pool)
+        spec['sids'] = pool[:len(spec['sids'])]
+        base = {'spec': spec, 'gen': 'g', 'stream': 'ids-with-blanks'}
+        yield dict(base, kind='h5all')
+        for axis in ('observation', 'sample'):
+            ids = spec['oids'] if axis == 'observation' else spec['sids']
+            for c in cli_requests(rng, base, axis, ids, True, True, every=True):
+                yield c
+            for sub in _subsets(rng, ids, tier)[:6]:
+                for k in ('h5', 'h5nomd', 'cmd_h5', 'json'):
+                    yield dict(base, kind=k, axis=axis, ids=list(sub))
+                yield dict(base, kind='cmd_json', axis=axis, ids=list(sub), ser='lib')
 
 
 def partial_md_cases(rng, tier):
@@ -415,6 +549,8 @@ def gen(rng, tier):
     for c in wide_cases(rng, tier):
         yield c
     for c in partial_md_cases(rng, tier):
+        yield c
+    for c in blank_id_cases(rng, tier):
         yield c
     n = 60 if tier == 'quick' else 600
     for i in range(n):
@@ -506,8 +642,12 @@ def classify(c):
     if c['kind'] == 'h5all':
         return tags
     tags.append('axis:' + c['axis'])
-    if c['kind'] == 'cmd_json':
+    if c['kind'] in SLICER:
         tags.append('ser:' + c['ser'])
+    if c['kind'].startswith('cli_'):
+        tags.append('ids-file:' + c.get('idsfile', 'plain'))
+        if any(' ' in i for i in c['ids']):
+            tags.append('ids-file:id-with-blank')
     ids = c['spec']['oids'] if c['axis'] == 'observation' else c['spec']['sids']
     if any(i not in ids for i in c['ids']):
         tags.append('request:unknown-id')
@@ -606,7 +746,7 @@ def risky_mdkey(spec):
 
 
 def sig_md_key(c, io, mo, fails):
-    return c['kind'] == 'cmd_json' and bool(fails) and _known_ids_only(c) and risky_mdkey(c['spec'])
+    return c['kind'] in SLICER and bool(fails) and _known_ids_only(c) and risky_mdkey(c['spec'])
 
 
 # keys = ids in known_findings.jsonl.  core.run_check accepts a match only when the model reproduces
